@@ -160,8 +160,7 @@ Definition dir_nonempty (h : heap) (i : nat) : bool :=
   match get h i with Some (NDir (_ :: _) _) => true | _ => false end.
 Definition node_is_sym (h : heap) (i : nat) : bool :=
   match get h i with Some (NSym _ _) => true | _ => false end.
-Definition meta_of (h : heap) (i : nat) : meta :=
-  match get h i with Some n => node_meta n | None => {| m_mode := 0; m_uid := 0; m_gid := 0 |} end.
+(* [meta_of] (the meta data of a node) is defined in MemFS.v *)
 
 (* dropping one name of a node AFTER its entry has been removed: a file loses one link; a symbolic link
    (which the kernel lets one hard-link) keeps its target while another name remains *)
